@@ -3398,3 +3398,38 @@ fn c03_event_prefix_o2_365() {
     event_prefix_at(EV_T1_O2, 365);
 }
 
+
+// ------------------------------------------------ fixed-capacity tag-member table ------
+
+//@ harness: c03_filter_many_hash_members
+//@ tier: quick
+//@ timeout: 1500
+//@ mem: 12
+//@ unwindset: memcmp.0=12; burn_string=12; eat_whitespace=6; eat_whitespace_and_commas=6; burn_array=6; json_unescape=8; memchr=12; read_u64=6; read_kind=6; parse_json_filter=120
+//@ encodes: Filter::from_json, parse_json_filter (the 52-slot table of tag-member positions, letter test, duplicate bitmap), burn_key_and_value_after_quote
+//@ bounds: a filter object with 53 members whose key is # followed by a DIGIT (`"#0":["x"]` ... , keys repeating) and then "kinds":[7] - constant 587-byte text, arbitrary prior buffer: no panic, no out-of-bounds index into the position table; the digit members are not tag members (skipped as unknown), the filter has kinds [7] and no tag constraints
+//@ outside: the text is constant; other over-long member lists
+#[kani::proof]
+#[kani::unwind(8)]
+#[kani::stub(core::panic::Location::caller, stub_caller)]
+fn c03_filter_many_hash_members() {
+    let mut out: [u8; 64] = kani::any();
+    match Filter::from_json(FH53, &mut out) {
+        Ok((consumed, written, f)) => {
+            kani::cover!(true);
+            assert!(consumed == FH53.len() && written == f.len());
+            assert!(f.num_kinds() == 1 && f.num_ids() == 0 && f.num_authors() == 0);
+            match f.tags() {
+                Ok(t) => assert!(t.count() == 0),
+                Err(e) => {
+                    core::mem::forget(e);
+                    panic!("tags")
+                }
+            }
+        }
+        Err(e) => {
+            core::mem::forget(e);
+            panic!("valid filter text with unknown members rejected");
+        }
+    }
+}
